@@ -254,6 +254,23 @@ def d30_region(s, i):
     return False
 
 
+def restaged_unfinished(s, i):
+    """the mechanism common to D2, D5b, D29 and D30: a task (not one iterating over items) has a
+    staged entry again while its latest record is not completed, so the next reports for it land
+    on the old record"""
+    for j in range(i + 1):
+        st = s["replies"][j].get("state")
+        if not st:
+            continue
+        for x in st.get("staged", []):
+            if x.get("items") is not None:
+                continue
+            idx = st.get("tasks", {}).get("%s__r%s" % (x["id"], x["route"]))
+            if idx is not None and idx < len(st["sequence"]) and st["sequence"][idx].get("status") not in TERMINAL + (None,):
+                return True
+    return False
+
+
 def region_of(s, i):
     if rearrival_region(s, i):
         return "D2"
@@ -263,6 +280,8 @@ def region_of(s, i):
         return "D29"
     if d30_region(s, i):
         return "D30"
+    if restaged_unfinished(s, i):
+        return "D2"
     return None
 
 
